@@ -140,8 +140,8 @@ def remove_synced_ops(ops_to_sync: list[Operation], sync_op: snax.ClusterSyncOp)
     return [op for op in ops_to_sync if not is_in_block(op, block)]
 
 
-def get_common_for_op(op1: Operation, op2: Operation) -> scf.ForOp | None:
-    """Get the innermost for loop that contains both operations."""
+def get_common_for_op(op1: Operation, op2: Operation) -> scf.ForOp | scf.WhileOp | None:
+    """Get the innermost loop (scf.for or scf.while) that contains both operations."""
     parents_op1: list[Operation] = []
     parent = op1.parent_op()
     while parent is not None:
@@ -149,10 +149,17 @@ def get_common_for_op(op1: Operation, op2: Operation) -> scf.ForOp | None:
         parent = parent.parent_op()
     parent = op2.parent_op()
     while parent is not None:
-        if isinstance(parent, scf.ForOp) and parent in parents_op1:
+        if isinstance(parent, scf.ForOp | scf.WhileOp) and parent in parents_op1:
             return parent
         parent = parent.parent_op()
     return None
+
+
+def get_back_edge_op(loop: scf.ForOp | scf.WhileOp) -> Operation:
+    """The terminator every path into the next iteration of the loop passes."""
+    block = loop.after_region.block if isinstance(loop, scf.WhileOp) else loop.body.block
+    assert isinstance(block.last_op, scf.YieldOp)
+    return block.last_op
 
 
 class InsertSyncBarrier(ModulePass):
@@ -203,15 +210,13 @@ class InsertSyncBarrier(ModulePass):
                         ops_to_sync.append(user)
                         # the two ops meet again in the next iteration of every loop they share
                         if (for_op := get_common_for_op(op_in_module, user)) is not None:
-                            assert isinstance(for_op.body.block.last_op, scf.YieldOp)
-                            ops_to_sync.append(for_op.body.block.last_op)
+                            ops_to_sync.append(get_back_edge_op(for_op))
 
                     if dispatch_to_compute(op_in_module, ctx) and not dispatch_to_compute(user, ctx):
                         ops_to_sync.append(user)
                         # the two ops meet again in the next iteration of every loop they share
                         if (for_op := get_common_for_op(op_in_module, user)) is not None:
-                            assert isinstance(for_op.body.block.last_op, scf.YieldOp)
-                            ops_to_sync.append(for_op.body.block.last_op)
+                            ops_to_sync.append(get_back_edge_op(for_op))
 
                     # an operation that every core executes and that may look into the buffer (a call, an unknown
                     # operation): a later operation of one core on that buffer has to wait for all of them
@@ -223,8 +228,7 @@ class InsertSyncBarrier(ModulePass):
                     ):
                         ops_to_sync.append(user)
                         if (for_op := get_common_for_op(op_in_module, user)) is not None:
-                            assert isinstance(for_op.body.block.last_op, scf.YieldOp)
-                            ops_to_sync.append(for_op.body.block.last_op)
+                            ops_to_sync.append(get_back_edge_op(for_op))
 
                     if isinstance(user, DeallocOp):
                         # if the operation is a sync op, clear the list
